@@ -5,6 +5,6 @@ for d in seeded/${1:-*}; do
   id=$(basename $d); prop=${id%%-*}
   [ -f $d/patch.diff ] || continue
   chk=$prop
-  out=$(tools/seedtest.sh $chk $d/patch.diff 2>&1 | grep -E "VIOLATION|seedtest|rc=" | tail -2 | tr '\n' ' ')
+  out=$(tools/seedtest.sh $chk $d/patch.diff 2>&1 | grep -E "VIOLATION|seedtest|rc=|error|refusing" | tail -2 | tr '\n' ' ')
   echo "$id -> $out"
 done
